@@ -53,6 +53,8 @@ type L2 struct {
 	ChainID   string
 	// GenesisUpdates are the validator updates InitGenesis returned.
 	GenesisUpdates []abci.ValidatorUpdate
+	keys           map[string]*storetypes.KVStoreKey
+	opt            L2Options
 }
 
 var L2Basics = module.NewBasicManager(auth.AppModuleBasic{}, bank.AppModuleBasic{}, opchild.AppModuleBasic{})
@@ -103,7 +105,66 @@ func NewL2(opt L2Options) *L2 {
 	// the consensus parameters a CometBFT chain starts with: ed25519 validator keys only
 	ctx = ctx.WithConsensusParams(tmproto.ConsensusParams{Validator: &tmproto.ValidatorParams{PubKeyTypes: []string{"ed25519"}}})
 
-	enc := MakeEncodingConfig(L2Basics)
+	w := &L2{Ctx: ctx, StoreKeys: sks, Enc: MakeEncodingConfig(L2Basics), ChainID: chainID, keys: keys, opt: opt}
+	w.wire()
+	ak, bk, k := w.AK, w.BK, w.K
+	if !opt.Blank {
+		if err := ak.Params.Set(ctx, authtypes.DefaultParams()); err != nil {
+			panic(err)
+		}
+		if err := bk.SetParams(ctx, banktypes.DefaultParams()); err != nil {
+			panic(err)
+		}
+	}
+	params := opchildtypes.DefaultParams()
+	admin := opt.Admin
+	if admin == "" {
+		admin = "admin"
+	}
+	params.Admin = Addr(admin).String()
+	params.BridgeExecutors = nil
+	for _, e := range opt.Executors {
+		params.BridgeExecutors = append(params.BridgeExecutors, Addr(e).String())
+	}
+	if len(params.BridgeExecutors) == 0 {
+		params.BridgeExecutors = []string{Addr("executor").String()}
+	}
+	if opt.Params != nil {
+		opt.Params(&params)
+	}
+	if !opt.Blank {
+		ak.GetModuleAccount(ctx, opchildtypes.ModuleName)
+		ak.GetModuleAccount(ctx, authtypes.Minter)
+		ak.GetModuleAccount(ctx, authtypes.FeeCollectorName)
+	}
+
+	if opt.Blank {
+		return w
+	}
+	// genesis through the real InitGenesis
+	gs := opchildtypes.DefaultGenesisState()
+	gs.Params = params
+	for _, v := range opt.Validators {
+		val, err := opchildtypes.NewValidator(sdk.ValAddress(Addr(v[0])), EdKey(v[1]).PubKey(), v[0])
+		if err != nil {
+			panic(err)
+		}
+		if opt.UpperCaseGenesisOperators {
+			val.OperatorAddress = strings.ToUpper(val.OperatorAddress)
+		}
+		gs.Validators = append(gs.Validators, val)
+	}
+	w.GenesisUpdates = k.InitGenesis(ctx, gs)
+
+	for _, name := range SortedKeys(opt.Accounts) {
+		w.CreateAccount(ctx, name, opt.Accounts[name])
+	}
+	return w
+}
+
+// wire constructs the keepers, servers and router over the world's store keys. It writes nothing.
+func (w *L2) wire() {
+	keys, enc, ctx, opt := w.keys, w.Enc, w.Ctx, w.opt
 	maccPerms := map[string][]string{
 		authtypes.FeeCollectorName: nil,
 		opchildtypes.ModuleName:    {authtypes.Burner, authtypes.Minter},
@@ -114,21 +175,11 @@ func NewL2(opt L2Options) *L2 {
 		authtypes.ProtoBaseAccount, maccPerms,
 		authcodec.NewBech32Codec(sdk.GetConfig().GetBech32AccountAddrPrefix()),
 		sdk.GetConfig().GetBech32AccountAddrPrefix(), authority)
-	if !opt.Blank {
-		if err := ak.Params.Set(ctx, authtypes.DefaultParams()); err != nil {
-			panic(err)
-		}
-	}
 	blocked := map[string]bool{}
 	for acc := range maccPerms {
 		blocked[authtypes.NewModuleAddress(acc).String()] = true
 	}
 	bk := bankkeeper.NewBaseKeeper(enc.Marshaler, runtime.NewKVStoreService(keys[banktypes.StoreKey]), ak, blocked, authority, ctx.Logger())
-	if !opt.Blank {
-		if err := bk.SetParams(ctx, banktypes.DefaultParams()); err != nil {
-			panic(err)
-		}
-	}
 	router := baseapp.NewMsgServiceRouter()
 	router.SetInterfaceRegistry(enc.InterfaceRegistry)
 	var bankMsg banktypes.MsgServer = bankkeeper.NewMsgServerImpl(bk)
@@ -164,57 +215,19 @@ func NewL2(opt L2Options) *L2 {
 		authcodec.NewBech32Codec(sdk.GetConfig().GetBech32ValidatorAddrPrefix()),
 		authcodec.NewBech32Codec(sdk.GetConfig().GetBech32ConsensusAddrPrefix()),
 		ctx.Logger())
-
-	params := opchildtypes.DefaultParams()
-	admin := opt.Admin
-	if admin == "" {
-		admin = "admin"
-	}
-	params.Admin = Addr(admin).String()
-	params.BridgeExecutors = nil
-	for _, e := range opt.Executors {
-		params.BridgeExecutors = append(params.BridgeExecutors, Addr(e).String())
-	}
-	if len(params.BridgeExecutors) == 0 {
-		params.BridgeExecutors = []string{Addr("executor").String()}
-	}
-	if opt.Params != nil {
-		opt.Params(&params)
-	}
 	msgServer := opchildkeeper.NewMsgServerImpl(k)
 	opchildtypes.RegisterMsgServer(router, msgServer)
 
-	if !opt.Blank {
-		ak.GetModuleAccount(ctx, opchildtypes.ModuleName)
-		ak.GetModuleAccount(ctx, authtypes.Minter)
-		ak.GetModuleAccount(ctx, authtypes.FeeCollectorName)
-	}
+	w.AK, w.BK, w.OK, w.K, w.Msg, w.Q, w.Router, w.Authority = ak, bk, &ok, k, msgServer, opchildkeeper.NewQuerier(k), router, authority
+}
 
-	w := &L2{Ctx: ctx, StoreKeys: sks, Enc: enc, AK: ak, BK: bk, OK: &ok, K: k, Msg: msgServer, Q: opchildkeeper.NewQuerier(k),
-		Router: router, Authority: authority, ChainID: chainID}
-
-	if opt.Blank {
-		return w
-	}
-	// genesis through the real InitGenesis
-	gs := opchildtypes.DefaultGenesisState()
-	gs.Params = params
-	for _, v := range opt.Validators {
-		val, err := opchildtypes.NewValidator(sdk.ValAddress(Addr(v[0])), EdKey(v[1]).PubKey(), v[0])
-		if err != nil {
-			panic(err)
-		}
-		if opt.UpperCaseGenesisOperators {
-			val.OperatorAddress = strings.ToUpper(val.OperatorAddress)
-		}
-		gs.Validators = append(gs.Validators, val)
-	}
-	w.GenesisUpdates = k.InitGenesis(ctx, gs)
-
-	for _, name := range SortedKeys(opt.Accounts) {
-		w.CreateAccount(ctx, name, opt.Accounts[name])
-	}
-	return w
+// Respawn returns a node that has just been started on this world's stores: newly constructed
+// keepers, servers and router (nothing any earlier execution left in process memory), over the
+// same store keys, so that it runs on every context of the original world. It writes nothing.
+func (w *L2) Respawn() *L2 {
+	n := &L2{Ctx: w.Ctx, StoreKeys: w.StoreKeys, Enc: w.Enc, ChainID: w.ChainID, keys: w.keys, opt: w.opt, GenesisUpdates: w.GenesisUpdates}
+	n.wire()
+	return n
 }
 
 func (w *L2) CreateAccount(ctx sdk.Context, name string, coins sdk.Coins) {
